@@ -116,6 +116,25 @@ partial def dsOfJson (j : Json) (prev : Option DS) : P (Except Err DS) := do
       pure (groupByDS (fun i => do
         let vs ← args.mapM fun a => p.value a i
         toKey [fn.call vs]) p)
+  | "split" =>
+    let p ← needPrev
+    let cls ← (← jField j "cls").getStr?
+    let sp ← jField j "split"
+    let sfn ← ufnOfJson cls "__split__" sp
+    let sargs ← argsOf sp
+    let fields ← (← objPairs (jFieldD j "fields" .null)).mapM fun (n, s) => do
+      pure (n, (← ufnOfJson cls n s), (← argsOf s))
+    let inhAll := (jFieldD j "inherit" .null) == .bool true
+    let inhList ← match j.getObjVal? "inherit" with
+      | .ok (.arr xs) => xs.toList.mapM fun x => x.getStr?
+      | _ => pure []
+    let own : List (String × (String → Val → Except Err Val)) := fields.map fun (n, fn, args) =>
+      (n, fun old part => do
+        let vs ← args.mapM fun a => if a == "__part__" then pure part else p.value a old
+        pure (fn.call vs))
+    pure (.ok (splitDS (fun old => do
+        let vs ← sargs.mapM fun a => p.value a old
+        splitPairs (sfn.call vs)) own (fun f => inhAll || inhList.contains f) p))
   | "join" =>
     let l ← dsOfJson (← jField j "left") none
     let r ← dsOfJson (← jField j "right") none
